@@ -248,6 +248,23 @@ def q_getitem(n, page_size, perm=None, with_index=True, parent=False, nan_rows=T
             res = it.call(gi, [ind, key])
         except Infeasible:
             continue
+        except PathRaise as e:
+            # building the index or the selection raises on a valid input: a violation if the path is feasible
+            ex.paths += 1
+            ex.solver.push()
+            ex.solver.add(*ex.pc)
+            ex.solver.add(*[z3.And(lo[i][0] < hi[i][0], lo[i][1] < hi[i][1]) for i in range(n)])      # realisable with proper rectangles
+            ex.solver.add(*[I[i] == z3.And(z3.Not(nan[i]) if nan_rows else z3.BoolVal(True), hi[i][0] >= qx0, lo[i][0] <= qx1, hi[i][1] >= qy0, lo[i][1] <= qy1)
+                            for i in range(n)])
+            ex.solver.add(qx0 < qx1, qy0 < qy1)
+            r = str(ex.solver.check())
+            nq += 1
+            if r == 'sat':
+                viol = {'model': model_ints(ex.solver.model(), allv), 'log': [], 'rect': True, 'raised': f'{getattr(e.exc, "__name__", e.exc)}: {e.text}'}
+                ex.solver.pop()
+                break
+            ex.solver.pop()
+            continue
         ex.paths += 1
         boxes = [b for tag, b in log if tag == 'box']
         sels = [s_ for tag, s_ in log if tag.startswith('selected')]
@@ -405,9 +422,13 @@ def _replay_getitem_once(n, page_size, with_index, parent, model, nan_rows, vals
         if x1 >= box[0] and x0 <= box[2] and y1 >= box[1] and y0 <= box[3]:
             exact.append(i)
     arr = (sg.MultiPointArray if diag else sg.PolygonArray)(rows, dtype='float64')
-    if with_index:
-        arr.build_sindex(page_size=page_size)
     wit = {'rows': rows, 'key': (kx0, kx1, ky0, ky1), 'with_index': with_index, 'page_size': page_size, 'parent': parent}
+    if with_index:
+        try:
+            arr.build_sindex(page_size=page_size)
+        except Exception as e:  # noqa: BLE001
+            wit.update(got=f'build_sindex raises {type(e).__name__}: {e}', expected=exact)
+            return True, wit
 
     def force(a):
         from . import c03
